@@ -177,11 +177,13 @@ func (st *State) primitive(f *ssa.Function, args []Val, site ssa.Instruction) (V
 		return TupleV{}, true
 	case "(*sync.Pool).Get":
 		r := st.declare("poolget", SInt)
-		st.assumeAllocated(r)
+		st.assume(tGe(r, tInt(0)))
+		st.poolInvariant(recvPtr(), TV{r, types.NewInterfaceType(nil, nil)}, false, site)
 		// Get returns a value previously Put, or New(): an interface value
 		vc.assumptionsUsed["sync.Pool.Get returns New() or a value previously passed to Put"] = true
 		return TV{r, f.Signature.Results().At(0).Type()}, true
 	case "(*sync.Pool).Put":
+		st.poolInvariant(recvPtr(), args[1], true, site)
 		st.ghostCountKey("G:$poolputs")
 		return TupleV{}, true
 	case "time.Now":
@@ -201,9 +203,7 @@ func (st *State) primitive(f *ssa.Function, args []Val, site ssa.Instruction) (V
 		r := st.allocRef("ticker")
 		// the ticker's channel C
 		ch := st.allocRef("tickC")
-		st.chanSet(ch, "open", tTrue)
-		st.chanSet(ch, "cap", tInt(1))
-		st.chanSet(ch, "len", tInt(0))
+		st.chanInit(ch, tInt(1))
 		p := PtrV{Kind: "obj", Root: "time.Ticker", Base: r, Path: "C", Elem: types.NewChan(types.RecvOnly, types.Typ[types.Int])}
 		st.writeLeaf(PtrV{Kind: "obj", Root: "time.Ticker", Base: r}, leaf{"C", nil, SInt}, ch)
 		_ = p
@@ -403,7 +403,7 @@ type ghostStmt struct {
 	clause *Clause
 }
 
-var ghostRe = regexp.MustCompile(`^(entry|at return|after call|before call|at go|after store)\s*([^:#]*?)(?:#(\d+))?\s*(?:when\s+(.*?))?:\s*(.*)$`)
+var ghostRe = regexp.MustCompile(`^(entry|at return|after call|before call|at go|after store)\s*((?:[^:#]|::)*?)(?:#(\d+))?\s*(?:when\s+(.*?))?:\s(.*)$`)
 
 func (vc *VC) parseGhostStmts() {
 	if vc.fc == nil {
@@ -467,11 +467,12 @@ func (vc *VC) parseGhostStmts() {
 }
 
 func (vc *VC) runGhost(st *State, anchor, callee string, ord int, callRes ...Val) {
-	if st.fr == nil || st.fr.fn != vc.fn {
-		// anchors refer to the function under contract only
-		if !(anchor == "after call" && st.fr != nil && st.fr.fn == vc.fn) {
-			return
-		}
+	if st.fr == nil {
+		return
+	}
+	if st.fr.fn != vc.fn {
+		// anchors inside an inlined callee are written "<callee key>::<anchor callee>"
+		callee = funcKey(st.fr.fn) + "::" + callee
 	}
 	for _, g := range vc.ghostAnchors {
 		if g.anchor != anchor {
@@ -490,6 +491,13 @@ func (vc *VC) runGhost(st *State, anchor, callee string, ord int, callRes ...Val
 func calleeMatches(pat, name string) bool {
 	if pat == name {
 		return true
+	}
+	if strings.Contains(name, "::") != strings.Contains(pat, "::") {
+		return false
+	}
+	if i := strings.Index(pat, "::"); i >= 0 {
+		j := strings.Index(name, "::")
+		return calleeMatches(pat[:i], name[:j]) && calleeMatches(pat[i+2:], name[j+2:])
 	}
 	// allow omitting the package prefix and matching by suffix
 	return strings.HasSuffix(name, "."+pat)
@@ -568,7 +576,18 @@ func (vc *VC) execGhost(st *State, g *ghostStmt, callRes ...Val) {
 	}
 	val := ec.evalTerm(g.rhs)
 	switch lhs.Kind {
-	case "ghost": // global ghost scalar/map
+	case "ghost": // global ghost scalar/map, or a ghost local of this function
+		if _, decl := vc.cs.Ghosts[lhs.Name]; !decl {
+			if _, builtin := builtinGhostSort(lhs.Name); !builtin {
+				cur, has := st.ghostLocals["$"+lhs.Name]
+				nv := val
+				if has && cond.S != "true" {
+					nv = tIte(cond, val, cur.(TV).T)
+				}
+				st.ghostLocals["$"+lhs.Name] = TV{st.define("gl."+lhs.Name, nv), nil}
+				return
+			}
+		}
 		ec.ghostGlobal(lhs.Name)
 		key := "G:$" + lhs.Name
 		st.set(key, tIte(cond, val, st.get(key)))
@@ -622,3 +641,36 @@ func (vc *VC) execGhost(st *State, g *ghostStmt, callRes ...Val) {
 
 // noteGlobal: globals initialised once in package init are treated as constants with the facts declared in "global" frames.
 func (vc *VC) noteGlobal(st *State, name string, o *types.Var, v Val) {}
+
+// poolInvariant: "type T: pool <field> holds <Pred>" -- every value put into the sync.Pool satisfies Pred (obligation at Put), hence every
+// value obtained from it does (assumption at Get; New() must establish it, which is the contract of the New closure).
+func (st *State) poolInvariant(p PtrV, v Val, isPut bool, site ssa.Instruction) {
+	vc := st.vc
+	td := vc.cs.Types[p.Root]
+	if td == nil {
+		return
+	}
+	for _, c := range td.Clauses {
+		if c.Kw != "pool" {
+			continue
+		}
+		fs := strings.Fields(c.Text) // <field> holds <Pred>
+		if len(fs) != 3 || fs[1] != "holds" || fs[0] != p.Path {
+			continue
+		}
+		e := &CExpr{Kind: "call", Name: fs[2], Args: []*CExpr{{Kind: "ident", Name: "$poolv"}}}
+		ec := st.evalCtx()
+		ec.names = copyNames(ec.names)
+		ec.names["$poolv"] = v
+		if pk := vc.pkgByShort(td.Pkg); pk != nil {
+			ec.pkg = pk
+		}
+		t := ec.evalBool(e)
+		if isPut {
+			st.oblige("pool", fmt.Sprintf("%s@Put#%d", fs[2], vc.ordinals[site]), t, "value put into "+p.Root+"."+p.Path+" satisfies "+fs[2])
+		} else {
+			st.assume(t)
+			vc.usedContracts["pool invariant "+p.Root+"."+p.Path+": "+fs[2]] = true
+		}
+	}
+}
